@@ -104,8 +104,10 @@ CLAIMED["C02"] = {
             "wherever the checker accepts (op,l,r) with result kind K, evaluating the operator through the bin_op/equ/neq handlers on every run-time "
             "representation of l and r yields Ok(K), never a kind-determined error or panic (an error is allowed only for a nil operand); the "
             "operator dispatch (Op::symbol, bin_op, bin_op_assign) is read the same way; no site builds a boxed present optional, which the "
-            "operators would not look through; unary minus is accepted only where Primitive::negate accepts it. Further clauses (built-in "
-            "signatures, dependency-walk completeness, return marking) are added as their engines land. Not decided: eq_complex over compound "
+            "operators would not look through; unary minus is accepted only where Primitive::negate accepts it; (b) every built-in method the type "
+            "checker declares resolves at run time to an implementation that accepts the receiver, destructures the declared parameter kinds and "
+            "returns the declared kind (87 receiver/method pairs). Further clauses (dependency-walk completeness, return marking) are added "
+            "as their engines land. Not decided: eq_complex over compound "
             "types, element kinds of containers, typeof text.",
     "technique": "static analysis: abstract interpretation of rustc MIR extracting decision tables of two sibling implementations, compared exhaustively",
     "design_ref": "DESIGN.md §5 C02",
@@ -131,6 +133,25 @@ CLAIMED["C06"] = {
             "run-time half of that equivalence is C05 (b),(c). Does not decide decimal-string <-> value round trips inside the folder.",
     "technique": "static analysis: two decision tables extracted by abstract interpretation of rustc MIR and compared; primitive-call inventory; guarded-by",
     "design_ref": "DESIGN.md §5 C06",
+}
+
+CLAIMED["C13"] = {
+    "text": "Partial by nature: decides that the interface is sound, not that each operation matches its mathematical model. (a) For every list/map "
+            "method the type checker declares (TypeLayout::get_property_type, read by abstract interpretation), the run-time name lookup "
+            "(Primitive::lookup -> PrimitiveModule accessor -> BuiltInFunction variant) finds a built-in whose implementation arm accepts the "
+            "receiver kind, destructures each declared native parameter as exactly that Primitive variant (else unreachable!()), reads no more "
+            "arguments than declared, and returns only kinds that inhabit the declared return type. Index-arithmetic casts and the bounds check "
+            "guarding element pointers are added as clauses (b),(c) when the cast/taint engine lands. Aliasing and contents over histories are not decided.",
+    "technique": "static analysis: three sibling tables extracted by abstract interpretation of rustc MIR and compared",
+    "design_ref": "DESIGN.md §5 C13",
+}
+CLAIMED["C14"] = {
+    "text": "Partial by nature: decides signature agreement, not the computed values. (a) For every string / number method the type checker declares, the "
+            "run-time lookup resolves the name for that receiver kind to a built-in whose implementation accepts the receiver, destructures each "
+            "declared parameter as the declared kind, and returns only kinds inhabiting the declared return type (e.g. T? -> T or nil). Clauses on "
+            "narrowing casts and narrow-kind arithmetic in the arms are added with the cast/taint engine.",
+    "technique": "static analysis: three sibling tables extracted by abstract interpretation of rustc MIR and compared",
+    "design_ref": "DESIGN.md §5 C14",
 }
 
 NOT_APPLICABLE = {
